@@ -418,6 +418,115 @@ Proof.
         fold h2 in Hin2. rewrite HL, Hic in Hin2. apply In_remove_nth in Hin2. rewrite Els in Hin2. apply in_seq in Hin2. lia. }
       injection Ewv as ->. subst w'. rewrite Ew. reflexivity.
 Qed.
+
+(* ---------------------------------------------------------------- the repaired tree: the product goes to a fresh array *)
+Definition stage2f (h1 : heapF) (fl1 : nat) (x : operand (F:=F)) (mode : nat) (kd : bool) (fs' : list (mat F)) : heapF :=
+  if is_contract x kd then stage2 (set_lst h1 fl1 (remove_nth mode (lst h1 fl1))) fl1 (OpMat []) (pred mode) false fs'
+  else stage2 h1 fl1 x mode kd fs'.
+Lemma lst_set_lst_same (h : heapF) fl v : fl < length (h_lst h) -> lst (set_lst h fl v) fl = v.
+Proof. intros H. unfold lst, set_lst. simpl. now apply nth_set_nth_same. Qed.
+
+Lemma cp_mode_dot_h_fresh_nocopy h r x mode kd : ref_fs h r < length (h_lst h) ->
+  cp_mode_dot_h_fresh Op h r false x mode kd =
+  if operand_okb (deref h r) then
+    match cp_mode_dot Op (operand_w Op (deref h r)) (operand_fs (deref h r)) x mode kd with
+    | Err => Err
+    | Ok (_, fs') =>
+        let h2 := stage2f h (ref_fs h r) x mode kd fs' in
+        match r with
+        | RObject o => Ok (set_obj h2 o (mk_cell (cp_shape (read_fs h2 (lst h2 (ref_fs h r)))) (c_w (obj h2 o)) (c_fs (obj h2 o))), o)
+        | RTuple _ _ => new_obj Op h2 (ref_w h r) (ref_fs h r)
+        end
+    end
+  else Err.
+Proof.
+  intros Hfl. unfold cp_mode_dot_h_fresh, stage2f, stage2. destruct (operand_okb (deref h r)); [|reflexivity].
+  destruct (cp_mode_dot Op _ _ x mode kd) as [[w' fs']|]; [|reflexivity]. cbv zeta.
+  destruct (is_contract x kd); [|reflexivity]. cbn [is_contract]. cbv iota.
+  rewrite (lst_set_lst_same h (ref_fs h r) _ Hfl). reflexivity.
+Qed.
+
+(* the last step (fresh object for a tuple, shape update for an object) reads back what the updated list holds *)
+Lemma result_stage_read (h : heapF) r (h2 : heapF) fs' w' h' o :
+  (forall o0, r = RObject o0 -> o0 < length (h_obj h)) -> h_obj h2 = h_obj h ->
+  read_fs h2 (lst h2 (ref_fs h r)) = fs' ->
+  (forall l, In l (lst h2 (ref_fs h r)) -> l < length (h_arr h2)) ->
+  (forall l, ref_w h r = Some l -> l < length (h_arr h2) /\ read_vec h2 l = w') ->
+  match r with
+  | RObject o0 => Ok (set_obj h2 o0 (mk_cell (cp_shape (read_fs h2 (lst h2 (ref_fs h r)))) (c_w (obj h2 o0)) (c_fs (obj h2 o0))), o0)
+  | RTuple _ _ => new_obj Op h2 (ref_w h r) (ref_fs h r)
+  end = Ok (h', o) ->
+  cpo_fs (read_obj h' o) = fs' /\ cpo_shape (read_obj h' o) = cp_shape fs' /\
+  cpo_w (read_obj h' o) = match ref_w h r with Some _ => w' | None => ones Op (cp_rank fs') end.
+Proof.
+  intros Hob HO Hrd Hb Hw E. destruct r as [w0 fl0|o0].
+  - destruct (new_obj_read h2 w0 fl0 h' o E) as (R1 & R2 & R3 & _).
+    + exact Hb.
+    + intros l El. now destruct (Hw l El).
+    + simpl ref_fs in Hrd. rewrite Hrd in R1, R2, R3. repeat split; auto. rewrite R3. simpl ref_w. destruct w0 as [l|]; auto.
+      now destruct (Hw l eq_refl).
+  - injection E as <- <-. specialize (Hob o0 eq_refl).
+    assert (Eo : obj h2 o0 = obj h o0) by (unfold obj; now rewrite HO).
+    rewrite read_obj_set_obj by (rewrite HO; exact Hob). cbn [cpo_fs cpo_shape cpo_w c_shape c_w c_fs].
+    rewrite Eo. simpl ref_fs in Hrd. rewrite Hrd. repeat split; auto. simpl ref_w. now destruct (Hw _ eq_refl).
+Qed.
+
+(* repaired tree, copy=False: the result reads as the pure model's answer WHATEVER the aliasing, and no array is ever overwritten *)
+Theorem cp_mode_dot_h_fresh_value h r x mode kd h' o :
+  wf_ref h r -> cp_mode_dot_h_fresh Op h r false x mode kd = Ok (h', o) ->
+  (exists a, h_arr h' = h_arr h ++ a) /\
+  exists w' fs', cp_mode_dot Op (operand_w Op (deref h r)) (operand_fs (deref h r)) x mode kd = Ok (w', fs') /\
+     cpo_fs (read_obj h' o) = fs' /\ cpo_shape (read_obj h' o) = cp_shape fs' /\
+     cpo_w (read_obj h' o) = match ref_w h r with Some _ => w' | None => ones Op (cp_rank fs') end.
+Proof.
+  intros (Hfl & Hin & Hwl & Hob). rewrite cp_mode_dot_h_fresh_nocopy by assumption.
+  destruct (operand_okb (deref h r)); [|discriminate].
+  destruct (cp_mode_dot Op _ _ x mode kd) as [[w' fs']|] eqn:Hpure; [|discriminate]. cbv zeta.
+  destruct (deref_w_fs h r) as [Efs Ew]. rewrite Efs in Hpure.
+  destruct (cp_mode_dot_ok_facts _ _ _ _ _ _ _ Hpure) as (Hm & Hw' & Hc & Hn).
+  set (fl := ref_fs h r) in *.
+  assert (Hlen : length (lst h fl) = length (read_fs h (lst h fl))) by (unfold read_fs; now rewrite map_length).
+  (* the base heap of the update: the list cell already popped in the contraction case *)
+  set (hb := if is_contract x kd then set_lst h fl (remove_nth mode (lst h fl)) else h).
+  set (xb := if is_contract x kd then OpMat [] else x). set (mb := if is_contract x kd then pred mode else mode).
+  set (kb := if is_contract x kd then false else kd).
+  set (fsb := if is_contract x kd then remove_nth mode (read_fs h (lst h fl)) else read_fs h (lst h fl)).
+  assert (Eh2 : stage2f h fl x mode kd fs' = stage2 hb fl xb mb kb fs') by (unfold stage2f, hb, xb, mb, kb; destruct (is_contract x kd); reflexivity).
+  assert (Hicb : is_contract xb kb = false) by (unfold xb, kb; destruct (is_contract x kd) eqn:E; [reflexivity|exact E]).
+  assert (Hflb : fl < length (h_lst hb)) by (unfold hb; destruct (is_contract x kd); [simpl; now rewrite set_nth_length|assumption]).
+  assert (Harr : h_arr hb = h_arr h) by (unfold hb; destruct (is_contract x kd); reflexivity).
+  assert (Hobj : h_obj hb = h_obj h) by (unfold hb; destruct (is_contract x kd); reflexivity).
+  assert (Hlsb : lst hb fl = if is_contract x kd then remove_nth mode (lst h fl) else lst h fl).
+  { unfold hb. destruct (is_contract x kd); [now apply lst_set_lst_same|reflexivity]. }
+  assert (Hinb : forall l, In l (lst hb fl) -> l < length (h_arr hb)).
+  { intros l Hl. rewrite Harr. rewrite Hlsb in Hl. apply Hin. destruct (is_contract x kd); [eapply In_remove_nth; eauto|assumption]. }
+  assert (Hrdb : read_fs hb (lst hb fl) = fsb).
+  { unfold fsb. rewrite Hlsb. unfold read_fs, arr. rewrite Harr. destruct (is_contract x kd); [apply map_remove_nth|reflexivity]. }
+  assert (Hmb : mb < length fsb).
+  { unfold mb, fsb. destruct (is_contract x kd) eqn:E; [now destruct (Hc eq_refl)|assumption]. }
+  assert (Hfb : fs' = set_nth mb (nth mb fs' []) fsb).
+  { unfold mb, fsb. destruct (is_contract x kd) eqn:E; [now destruct (Hc eq_refl)|now apply Hn]. }
+  set (h2 := stage2f h fl x mode kd fs').
+  assert (Hrd : read_fs h2 (lst h2 fl) = fs').
+  { unfold h2. rewrite Eh2. apply (stage2_read hb fl xb mb kb fsb); auto; rewrite Hicb; discriminate. }
+  destruct (stage2_bound hb fl xb mb kb fs' Hflb Hinb) as [Hge Hb].
+  destruct (stage2_lists hb fl xb mb kb fs' Hflb) as (_ & _ & _ & HO).
+  rewrite <- Eh2 in Hge, Hb, HO. fold h2 in Hge, Hb, HO. rewrite Harr in Hge. rewrite Hobj in HO.
+  assert (Hpre : exists a, h_arr h2 = h_arr h ++ a).
+  { unfold h2. rewrite Eh2. unfold stage2. rewrite Hicb. simpl. rewrite Harr. eexists; reflexivity. }
+  intros E. split.
+  - destruct Hpre as [a Ea]. destruct r as [w0 fl0|o0].
+    + destruct (new_obj_read h2 w0 fl0 h' o E) as (_ & _ & _ & _ & _ & _ & _ & [a3 Ra3] & _).
+      * exact Hb.
+      * intros l El. specialize (Hwl l El). lia.
+      * exists (a ++ a3). now rewrite Ra3, Ea, app_assoc.
+    + injection E as <- <-. exists a. exact Ea.
+  - exists w', fs'. split; [reflexivity|].
+    apply (result_stage_read h r h2 fs' w' h' o); auto.
+    intros l El. split; [specialize (Hwl l El); lia|].
+    destruct Hpre as [a Ea]. unfold read_vec, arr. rewrite Ea, app_nth1 by (now apply Hwl).
+    subst w'. rewrite Ew, El. reflexivity.
+Qed.
 End HP.
 
 (* ---------------------------------------------------------------- the defect: a factor list naming one array twice *)
